@@ -3,8 +3,8 @@ import hashlib, json, os, sys, time
 from . import build
 
 ROOT = build.ROOT
-EVIDENCE = os.path.join(ROOT, "evidence")
-REPLAYS = os.path.join(ROOT, "replays")
+EVIDENCE = os.environ.get("VERIF_EVIDENCE", os.path.join(ROOT, "evidence"))
+REPLAYS = os.environ.get("VERIF_REPLAYS", os.path.join(ROOT, "replays"))
 FINDINGS = os.path.join(ROOT, "known_findings.json")
 
 
@@ -80,6 +80,19 @@ class Check:
 
     def add_violation(self, key, what, detail, replay):
         self.violations.append({"key": key, "what": what, "detail": detail, "replay": dict(replay, property=self.pid)})
+
+    def compile_violation(self, what, wsname, profile, diag, nprog, key=None):
+        """generated use-code for declarations the reference model calls valid does not compile: that is a verdict
+        (API missing / ill-typed / declaration rejected / not const), not a machinery failure"""
+        errs = [l for l in diag.splitlines() if 'error' in l][:10]
+        key = key or f"{wsname}: generated code for valid declarations does not compile"
+        self.add_violation(key, what, key + "\n  " + "\n  ".join(errs),
+                           {"engine": "build", "workspace": wsname, "profile": profile, "diagnostics": diag[-6000:]})
+        # what was explored here: the programs handed to the compiler, and its one verdict
+        self.states += nprog
+        self.transitions += 1
+        self.sample({"workspace": wsname, "verdict": "generated crate rejected by rustc", "first_errors": errs[:3]})
+        return errs
 
     def sample(self, s):
         if len(self.samples) < 8:
